@@ -15,7 +15,7 @@ func init() {
 	register(&CheckDef{Name: "route", Props: []string{"C04"}, Run: runRoute, Replay: replayRoute})
 }
 
-var routeUniverse = [][]string{{}, {"-f"}, {"x"}, {"-f", "x"}, {"x", "y"}, {"-z"}, {"--"}, {"--", "x"}, {"-f", "--", "-f"}}
+var routeUniverse = [][]string{{}, {"-f"}, {"x"}, {"-f", "x"}, {"x", "y"}, {"-z"}, {"--"}, {"--", "x"}, {"-f", "--", "-f"}, {"-"}, {"-fo", "v"}}
 
 func kindAssignments(nslots int, kinds []int, f func(assign []int)) {
 	a := make([]int, nslots)
@@ -35,12 +35,15 @@ func kindAssignments(nslots int, kinds []int, f func(assign []int)) {
 
 func runRoute(c *Ctx) {
 	idx := 0
-	kinds := []int{0, 1, 2, 3, 4, 5, 8}
+	kinds := []int{0, 1, 2, 3, 4, 5, 8, 12}
 	for si, shape := range treeShapes(c.Thorough()) {
 		slots := numberSlots(shape)
 		ks := kinds
+		if !c.Thorough() {
+			ks = [][]int{{0, 1, 3, 5, 8, 12}, {0, 2, 4, 8, 12}}[si%2]
+		}
 		if len(slots) > 4 {
-			ks = []int{0, 3, 5, 8} // deeper tree: fewer kinds per level
+			ks = []int{0, 3, 8, 12} // deeper tree: fewer kinds per level
 		}
 		ntrees := 0
 		kindAssignments(len(slots), ks, func(assign []int) {
@@ -125,6 +128,19 @@ func routeCase(c *Ctx, si int, shape *tnode, assign []int, args []string) {
 		return
 	}
 	for i, n := range r.levels {
+		// a sub-command is initialised lazily, after its parent's own tokens were bound: its initializer sees them
+		if i > 0 {
+			ok := false
+			for _, b := range r.binds[i-1] {
+				if normaliseSingle(lvlKinds[assign[r.levels[i-1].slot]], b) == tr.initSaw[n] {
+					ok = true
+				}
+			}
+			if !ok {
+				c.Violation("C04", key+" (lazy initialisation)", cs(), fmt.Sprintf("the initializer of %s runs after %s was bound and sees %s", n.path(), r.levels[i-1].path(), strings.Join(r.binds[i-1], " / ")), "it saw "+tr.initSaw[n])
+				return
+			}
+		}
 		got := tr.vals[n]()
 		k := lvlKinds[assign[n.slot]]
 		ok := false
